@@ -35,7 +35,7 @@ REVIEWED = {
     "series_computation/del_#0::linear_operator_series[series_name].pop(index, None)": "as above for the linear-operator twin",
     "operator_to_BlockSeries::operator.name = name or operator.name": "renames the (possibly caller-supplied) BlockSeries; its elements and data are untouched - reported in evidence as an observation, not an element mutation",
     "solve_sylvester_diagonal/solve_sylvester#0::index_checked.add(index[:2])": "the solver's own memo of checked block pairs; executed only after the check succeeded (C11)",
-    "_dict_to_BlockSeries::operator[zeroth_order] = sparse.csr_array(operator[zeroth_order])": "`operator` was rebound to copy(operator) at the top of the function: the caller's dictionary is not written",
+    "_dict_to_BlockSeries::operator[zeroth_order] = sparse.csr_array(": "`operator` was rebound to copy(operator) at the top of the function: the caller's dictionary is not written",
     "direct_greens_function::ctx.set_matrix(": "MUMPS context created in this call; the matrix passed is a fresh coo copy (MUMPS path not installed here)",
     "direct_greens_function/solve#0::ctx.solve(v, overwrite_b=True)": "v is the projected copy made in greens_function (MUMPS path not installed here)",
     "ComplementProjector._transpose::self._transpose_operator": "memoised partner operator of the projector itself",
